@@ -103,10 +103,20 @@ func (d *Dictionary) Decode(dst [][]byte, src []byte, itemsCount uint64) ([][]by
 	if err != nil {
 		return nil, err
 	}
-	d.indices = decodeRLE(d.indices, d.tmp)
-	if uint64(len(d.indices)) != itemsCount {
-		return nil, fmt.Errorf("unexpected item counts; got %d; want %d", len(d.indices), itemsCount)
+	if len(d.tmp)%2 != 0 {
+		return nil, fmt.Errorf("unexpected odd number of run-length items: %d", len(d.tmp))
 	}
+	var total uint64
+	for i := 0; i < len(d.tmp); i += 2 {
+		if uint64(d.tmp[i]) >= uint64(len(d.values)) {
+			return nil, fmt.Errorf("dictionary index %d out of range; got %d values", d.tmp[i], len(d.values))
+		}
+		total += uint64(d.tmp[i+1])
+	}
+	if total != itemsCount {
+		return nil, fmt.Errorf("unexpected item counts; got %d; want %d", total, itemsCount)
+	}
+	d.indices = decodeRLE(d.indices, d.tmp)
 	for _, index := range d.indices {
 		dst = append(dst, d.values[index])
 	}
@@ -246,6 +256,9 @@ func (bpd *bitPackingDecoder) decode(dst []uint32) ([]uint32, error) {
 	bitsWidth, err := bpd.br.ReadBits(8)
 	if err != nil {
 		return nil, err
+	}
+	if bitsWidth < 1 || bitsWidth > 32 {
+		return nil, fmt.Errorf("unexpected bits width: %d; want 1..32", bitsWidth)
 	}
 	for i := uint64(0); i < length; i++ {
 		value, err := bpd.br.ReadBits(int(bitsWidth))
